@@ -1,5 +1,5 @@
 # Per-property configuration of the check driver: parts (sub-harnesses), case counts per tier.
-HOOK_COMMITS = ['5d7d0e7', '69e30e4', 'f2318af', '1b17814', '0da0767', 'd46a054']
+HOOK_COMMITS = ['5d7d0e7', '69e30e4', 'f2318af', '1b17814', '0da0767', 'd46a054', '73e80e2', '5658069', 'd0a9566', 'e550869']
 NOT_APPLICABLE = {}
 
 CHECKS = {
@@ -43,6 +43,7 @@ CHECKS = {
         "parts": [
             {"part": "chain", "test": "TestChain", "quick": {"checks": 6000, "shards": 4}, "thorough": {"checks": 2000000, "shards": 16, "timeout": 3000}},
             {"part": "e2e", "test": "TestConversionE2E", "quick": {"checks": 240, "shards": 16, "shrinktime": "60s", "timeout": 900}, "thorough": {"checks": 6000, "shards": 16, "timeout": 6000}},
+            {"part": "concurrent", "test": "TestConcurrentConversions", "owned_schedule": True, "quick": {"checks": 128, "shards": 16, "shrinktime": "60s", "timeout": 900}, "thorough": {"checks": 3000, "shards": 16, "timeout": 6000}},
         ],
     },
     "C16": {
@@ -163,11 +164,12 @@ CHECKS = {
         "pkg": "c14",
         "engine": "e2e-opkit",
         "aux_builds": [{"pkg": "./cmd/vhook", "out": "vhook"}],
-        "technique": "property-based fault injection (rapid): generated admission requests x scripted hook outcomes through the real HTTP router and operator, decision-table oracle",
+        "technique": "property-based fault injection (rapid): generated admission requests x scripted hook outcomes through the real HTTP router and operator, decision-table oracle; overlapping requests with a generated, harness-owned order in which the hook executions end",
         "level_text": "Random binding sets, request paths/bodies and hook outcomes through the real admission router, event handler and hook processes; allowed=true only per the decision table; verdict relay and routing checked against the hook log. Search over the fault table, not a proof.",
         "level_note": "Trusted: scripted hook binary; httptest instead of the TLS listener; webhook ids that collide after sanitising are only required to fail closed and to run a hook that registered the id.",
         "parts": [
             {"part": "admission", "test": "TestAdmission", "quick": {"checks": 320, "shards": 16, "shrinktime": "60s", "timeout": 900}, "thorough": {"checks": 8000, "shards": 16, "shrinktime": "120s", "timeout": 6000}},
+            {"part": "concurrent", "test": "TestConcurrent", "owned_schedule": True, "quick": {"checks": 160, "shards": 16, "shrinktime": "60s", "timeout": 900}, "thorough": {"checks": 4000, "shards": 16, "shrinktime": "120s", "timeout": 6000}},
         ],
     },
     "C04": {
@@ -216,6 +218,7 @@ CHECKS = {
         "level_note": "Trusted: scripted hook copies the context file verbatim; gojq for the independent filter evaluation; fake cluster watch semantics.",
         "parts": [
             {"part": "e2e", "test": "TestContexts", "quick": {"checks": 400, "shards": 16, "shrinktime": "90s", "timeout": 900}, "thorough": {"checks": 6000, "shards": 16, "shrinktime": "180s", "timeout": 6000}, "owned_schedule": False},
+            {"part": "webhooks", "test": "TestWebhookContexts", "quick": {"checks": 240, "shards": 16, "shrinktime": "60s", "timeout": 900}, "thorough": {"checks": 6000, "shards": 16, "shrinktime": "120s", "timeout": 6000}, "owned_schedule": True},
         ],
     },
 }
